@@ -11,3 +11,7 @@ open LhasaV.Props.C16
 #print axioms tool_kind_independent
 #print axioms tool_prefix_transparent
 #print axioms listing_kind_independent
+#print axioms tool_shift_transparent
+#print axioms tool_decoy_transparent
+#print axioms prefix_passed_over_iff
+#print axioms sfx_archive_end_to_end
